@@ -364,14 +364,18 @@ def run(ctx):
 
 def probe(ctx):
     """which of the named deviations does this tree have?"""
-    g = ctx.gotest(".", FILES, "^TestVerifX04Probe$", timeout=240)
-    if not ctx.need_go_ok(g, "X04 probe"):
-        return None
-    p = [r for r in g.records if r.get("kind") == "probe"]
-    if not p:
-        ctx.inconclusive("X04 probe produced no result")
-        return None
-    res = p[-1]
+    for attempt in range(3):
+        g = ctx.gotest(".", FILES, "^TestVerifX04Probe$", timeout=240)
+        if not ctx.need_go_ok(g, "X04 probe"):
+            return None
+        p = [r for r in g.records if r.get("kind") == "probe"]
+        if not p:
+            ctx.inconclusive("X04 probe produced no result")
+            return None
+        res = p[-1]
+        if not res.get("void"):
+            break
+        ctx.log("probe attempt %d void (%s)" % (attempt + 1, res["void"]))
     if res.get("void"):
         ctx.inconclusive("X04 probe could not measure: %s" % res["void"])
         return None
